@@ -572,9 +572,10 @@ func (w *W) instr(t *Thread, f *frame, ins ssa.Instruction, key int, g *Term) *T
 		f.set(x, &Func{[]FAlt{fa}}, g)
 	case *ssa.MakeChan:
 		sz := w.val(f, x.Size).(*Term)
+		sz = Sext(sz, 64)
 		c, ok := maxConst(sz)
-		if !ok || !sz.IsConst() {
-			panic("cannot encode: channel with symbolic capacity at " + w.pos(x.Pos()))
+		if !ok {
+			panic("cannot encode: channel with non-enumerable capacity at " + w.pos(x.Pos()))
 		}
 		o, fresh := w.newObj(fmt.Sprintf("C%d:%d", t.id, key), x.Type(), false)
 		if fresh {
@@ -583,6 +584,12 @@ func (w *W) instr(t *Thread, f *frame, ins ssa.Instruction, key int, g *Term) *T
 			o.owner = t.id
 			o.ghost = f.harness
 			o.name = "chan@" + w.pos(x.Pos())
+		}
+		if int(c) > o.cap {
+			o.cap = int(c)
+		}
+		if !sz.IsConst() {
+			o.cells["capv"] = sz
 		}
 		o.published = false
 		f.set(x, onePtr(mkLoc(o, "")), g)
@@ -615,7 +622,7 @@ func (w *W) instr(t *Thread, f *frame, ins ssa.Instruction, key int, g *Term) *T
 		ln, cp = Sext(ln, 64), Sext(cp, 64)
 		mx, okc := maxConst(cp)
 		if !okc {
-			panic("cannot encode: make([]T, n) with non-enumerable n at " + w.pos(x.Pos()))
+			panic("cannot encode: make([]T, n) with non-enumerable n at " + w.pos(x.Pos()) + " n=" + cp.String() + diagLeaves(cp))
 		}
 		o, fresh := w.newObj(fmt.Sprintf("S%d:%d", t.id, key), x.Type().Underlying().(*types.Slice).Elem(), false)
 		if fresh {
@@ -1064,4 +1071,23 @@ func (w *W) publishObj(o *Object) {
 	for _, v := range o.cells {
 		w.publish(v)
 	}
+}
+
+func diagLeaves(t *Term) string {
+	m := map[int]*Term{}
+	badLeaves(t, m)
+	s := " non-constant leaves:"
+	for _, x := range m {
+		s += " " + x.str(3)
+		if x.op == OAdd || x.op == OSlt {
+			mm := map[int]*Term{}
+			for _, a := range x.args {
+				badLeaves(a, mm)
+			}
+			for _, y := range mm {
+				s += " [" + y.str(3) + "]"
+			}
+		}
+	}
+	return s
 }
